@@ -3,6 +3,16 @@ From Coq Require Import String List Bool.
 From Verif Require Import Base.Str C03.Model.
 Import ListNotations.
 
+(* ---- the verifier itself.  One run of xmlsec1 --verify as it can be observed: the version the binary reports, is
+   the command line confined to the certificate file it names (no key material of the message is enabled), does it
+   carry --lax-key-search.  "A key carried inside the message never suffices": whatever the version, every run is
+   confined -- otherwise the binary takes the key from the ds:KeyInfo of the message (a bare RSAKeyValue as it
+   stands) and the certificate selection above decides nothing. ---- *)
+Definition call := (version * bool * bool)%type.
+
+Definition confined_calls (calls : list call) : Prop :=
+  forall v c l, In (v, c, l) calls -> c = true.
+
 Section Spec.
   Variables key cert msg sig : Type.
   Variable cert_of : key -> cert.
